@@ -12,6 +12,12 @@ LEVEL = "translation_validation"
 ASSUMPTIONS = ["one fresh interpreter per history (the registry is process-global state)"]
 
 
+BUILTIN_ANNOTATIONS = ["gdc-1.0.0", "gdc-1.0.0-protected", "gdc-1.0.0-public", "gdc-1.0.1-protected", "gdc-1.0.1-public",
+                       "gdc-1.0.0-aliquot", "gdc-1.0.0-aliquot-merged", "gdc-1.0.0-aliquot-merged-masked", "gdc-2.0.0-aliquot",
+                       "gdc-2.0.0-aliquot-merged", "gdc-2.0.0-aliquot-merged-masked", "gdc-2.0.0-fmi", "gdc-1.0.0-genie", "gdc-2.0.0-genie",
+                       "no-annotation-specification"]
+
+
 def run_history(req):
     p = subprocess.run([sys.executable, "-W", "ignore", "-m", "verif.regproc"], input=json.dumps(req).encode(), cwd=common.VERIF,
                        stdout=subprocess.PIPE, stderr=subprocess.PIPE, timeout=120)
@@ -80,12 +86,17 @@ def analyse(out, ops, regs, steps, where):
             out.failures.append(dict(where, what="harness failure", kind="harness", got=s))
             return
         if o["k"] == "register":
+            known = {a for (_v, a) in registered} | set(BUILTIN_ANNOTATIONS)
+            anns = [d["annotation"] for d in o["defs"]]
+            well_formed = (len(set(anns)) == len(anns) and not (set(anns) & known)
+                           and all(d.get("extends") is None or d["extends"] in known or d["extends"] in anns for d in o["defs"]))
             if s["exc"] is None:
                 for d in o["defs"]:
                     registered[(d["version"], d["annotation"])] = d
-            else:
-                # a registration that fails must not lose what was registered before
-                pass
+            elif well_formed:
+                out.failures.append(dict(where, what="registering well-formed definitions failed (%s)" % s["exc"], kind="registration-failed",
+                                         defs=o["defs"]))
+                return
         elif o["k"] == "find" and (o["version"], o["annotation"]) in registered:
             if s.get("annotation") != o["annotation"]:
                 out.failures.append(dict(where, what="a registered scheme (%s, %s) does not resolve (any more)" % (o["version"], o["annotation"]),
